@@ -91,6 +91,10 @@ func (w *world) advancePod(p *cachectl.PodSpec) {
 
 func (w *world) step(cycle bool, nodeChurn int) {
 	r := w.r
+	if cycle && r.Chance(1, 5) { // the cycle works between the notifications
+		w.cycleOp()
+		return
+	}
 	k := r.Intn(100)
 	if w.pgChurn && r.Chance(1, 2) {
 		k = vh.Pick(r, []int{70, 70, 80, 80, 80, 44, 91})
@@ -220,6 +224,9 @@ func (w *world) cycleOp() {
 			job = p.Job
 		}
 		node := int64(r.Range(1, int(w.nNodes)))
+		if r.Chance(1, 8) {
+			node = int64(r.Range(1, 3)) // possibly a node the cache has never seen
+		}
 		fault := int64(1)
 		if r.Chance(1, 2) {
 			fault = vh.Pick(r, []int64{0, 2, 2, 3})
@@ -236,7 +243,7 @@ func (w *world) cycleOp() {
 		}
 	default: // evict a placed pod
 		id := int64(r.Range(1, int(w.nPods)))
-		for try := 0; try < 4; try++ {
+		for try := 0; try < 4 && !r.Chance(1, 4); try++ { // sometimes any pod: no node entry, terminated, no job
 			if p, ok := w.pods[id]; ok && p.Node != 0 && p.Phase <= 2 && p.Job != 0 {
 				break
 			}
